@@ -277,12 +277,25 @@ def instrumented_copy(tree, path, ts, gl, workdir):
     return dst
 
 
+def may_wait(tree):
+    """functions that (transitively) contain a wait point: a textual usleep call."""
+    w = {f.name for f in tree.funcs.values() if re.search(r"\busleep\s*\(", f.body)}
+    changed = True
+    while changed:
+        changed = False
+        for f in tree.funcs.values():
+            if f.name not in w and any(c in w for c in f.calls):
+                w.add(f.name)
+                changed = True
+    return w
+
+
 def all_headers():
     return sorted(glob.glob(os.path.join(REPO, "include", "*.h")) + glob.glob(os.path.join(REPO, "include", "*", "*.h")) +
                   glob.glob(os.path.join(REPO, "src", "*", "*.h")))
 
 
-def write_stub_tu(tree, acq, docreq, flags, workdir, atomic=None):
+def write_stub_tu(tree, acq, docreq, flags, workdir, atomic=None, waits=()):
     """one TU with a contract stub for every function that has a lock contract."""
     areads = {v["read"] for v in (atomic or {}).values()}
     awrites = {v["write"] for v in (atomic or {}).values()}
@@ -293,7 +306,7 @@ def write_stub_tu(tree, acq, docreq, flags, workdir, atomic=None):
     names = []
     for key, g in sorted(tree.funcs.items()):
         req, free, fl = lock_contract(acq, docreq, flags, g.name)
-        if not (req or free or fl or g.name in areads or g.name in awrites):
+        if not (req or free or fl or g.name in areads or g.name in awrites or g.name in waits):
             continue
         if g.static and not stub_compiles_static(g):
             continue
@@ -316,6 +329,10 @@ def write_stub_tu(tree, acq, docreq, flags, workdir, atomic=None):
             L.append('\t\t__CPROVER_assert(vp_init_phase || vp_held[%d] != 0, "C10.requires_held: call of %s with %s=false needs %s held (%s)");' % (
                 i, g.name, fl["param"], fl["lock"], fl["source"].split(" ")[0]))
             L.append("\t}")
+        if g.name in waits:
+            for l in csrc.LOCKS:
+                if l not in req:
+                    L.append('\t__CPROVER_assert(vp_held[%d] == 0, "C11.wait_without_locks: call of %s (polls / sleeps until another thread makes progress) while holding %s");' % (RANK[l], g.name, l))
         if g.name in areads:
             L.append('\tif (vp_rmw_lock >= 0) { __CPROVER_assert(vp_held[vp_rmw_lock] == -1, "C10.atomic_section: %s (the read of a read-modify-write) is called without the exclusive lock that makes the section atomic"); vp_rmw_open = 1; vp_rmw_broken = 0; }' % g.name)
         if g.name in awrites:
@@ -359,7 +376,8 @@ def generate(prop, tier, workdir):
             copies[path] = instrumented_copy(tree, path, ts, gl, workdir)
         return copies[path]
     atomic = over.get("atomic_sections", {})
-    stub_obj, stubbed = write_stub_tu(tree, acq, docreq, flags, workdir, over.get("atomic_sections", {}))
+    waits = may_wait(tree)
+    stub_obj, stubbed = write_stub_tu(tree, acq, docreq, flags, workdir, over.get("atomic_sections", {}), waits)
     stubbed = set(stubbed)
     units = []
     inv = " && ".join("vp_held[%d] == __CPROVER_loop_entry(vp_held[%d])" % (i, i) for i in range(len(csrc.LOCKS)))
@@ -382,7 +400,8 @@ def generate(prop, tier, workdir):
         req_f, free_f, fl_f = lock_contract(acq, docreq, flags, f.name)
         L = ['#include "vp_common.h"', '#include "vp_locks.h"', "#include <glib.h>", "#include <yaml.h>"] + \
             ['#include "%s"' % os.path.relpath(h, REPO) for h in all_headers()] + \
-            ["#define static /* file-local linkage dropped: helpers are replaced by their contracts like any callee */"] + \
+            ["#define static /* file-local linkage dropped: helpers are replaced by their contracts like any callee */",
+             "#include <unistd.h>", "#define usleep(x) VP_WAIT_POINT() /* a timed wait for another thread's progress: see stubs/vp_locks.h */"] + \
             ([] if any(g.name == "syslog_libbidib" for g in tree.by_file[f.file]) else
              ["#define syslog_libbidib(...) ((void)0) /* logging dropped: no effect on locks; keeps the object count low */"]) + \
             ['#include "%s"' % copy_of(f.file), "#undef static", "_Bool vp_init_phase;", "", "void vp_harness(void) {",
@@ -407,6 +426,8 @@ def generate(prop, tier, workdir):
                     L.append("\t__CPROVER_assume(%s);" % anyst)
                 else:
                     L.append("\t__CPROVER_assume(vp_held[%d] == 0);" % i)
+            elif f.name in waits:
+                L.append("\t__CPROVER_assume(vp_held[%d] == 0); /* may wait for another thread: callers hold nothing (obligation at every call site) */" % i)
             else:
                 L.append("\t__CPROVER_assume(%s);" % anyst)
             L.append("\tvp_e[%d] = vp_held[%d];" % (i, i))
